@@ -44,6 +44,8 @@ def dispatch (prop : String) (line : String) : Verdict :=
     | some "queue" => QueueE.runQueue prop f obsS
     | some "qstress" => QueueE.runStress prop f obsS
     | some "queue0" => QueueE.runQueue0 prop f obsS
+    | some "qburst" => QueueE.runBurst prop f obsS
+    | some "qlatency" => QueueE.runLatency prop f obsS
     | some "sock" => SockE.runSock prop f obsS
     | some "sockmt" => SockE.runMt prop f obsS
     | some "socklock" => SockE.runLock prop f obsS
@@ -70,7 +72,8 @@ partial def loop (prop : String) (h : IO.FS.Stream) (out : IO.FS.Stream) (a : DA
       a := { a with dis := a.dis + 1 }
     match v.viol with
     | some e =>
-      out.putStrLn s!"P {n} {e.1} {e.2}"
+      for p2 in e.1.splitOn "+" do
+        out.putStrLn s!"P {n} {p2} {e.2}"
       a := { a with pred := a.pred + 1 }
     | none => pure ()
     let mut tags := a.tags
